@@ -8,7 +8,9 @@ triples over 8 of them; x the 10 fonts, each by number AND by name x sizes {4, 4
 few more odd sizes; all 260x260 pairs at the 12 design sizes); units {in, mm, px} x
 dpi {36, 72, 96, 300, 600} on the empty string, the 24 singles and 16 pairs; strings in the syntax of the library's own
 other layers (LaTeX-style commands with every kind of follower, ^ _ >= <=, RTF control words / groups, page-field
-keywords), each with ALL its prefixes, measured as literal text under the same clauses.
+keywords), each with ALL its prefixes, measured as literal text under the same clauses; call histories (every
+unsupported font / unit in all sequences of <= 3 calls mixed with valid ones) and calling threads (a slice of all fonts,
+units and invalid inputs from the main thread and from two freshly started threads).
 Oracle (the clauses of the property text): width("") == 0; width >= 0; mm == in*25.4 and px == in*dpi
 (relative 1e-12); number == name (bit-identical); width(s+c) >= width(s); |w(s,a)/a - w(s,b)/b| <= 1% of the
 larger for every pair of sizes; font 9 (monospaced): width == len * advance of a single character;
@@ -344,8 +346,114 @@ def eval_errors(case: dict) -> dict:
     return {"viol": viol, "nt": True, "cnt": cnt}
 
 
+
+# --------------------------------------------------------------------------- call histories and calling thread
+# get_string_width is specified as a function of its arguments.  Whatever it keeps between calls (an opened font, the last
+# request) and whichever thread calls it are part of the environment: the clauses must hold for every call HISTORY and on
+# every THREAD.  Histories: all sequences of length <= 3 over {I, V1, V2} that contain the invalid request I (V1 shares its
+# size with I, V2 does not); every I must raise ValueError, every V must return one and the same value in all histories.
+
+
+def _outcome(fn):
+    try:
+        return ("ok", fn())
+    except ValueError:
+        return ("ValueError", None)
+    except Exception as e:  # noqa: BLE001
+        return ("other:" + type(e).__name__, str(e)[:120])
+
+
+def eval_history(case: dict) -> dict:
+    w = gsw()
+    cnt = {"calls": 0, "histories": 0, "history-invalid-calls": 0, "history-valid-calls": 0}
+    viol = []
+    z = case["size"]
+    inv, what = None, "valid-only"
+    if case.get("valid_only"):
+        req = {"V1": ("x", 1, z, "in", 72), "V2": ("x", "Arial", z, "in", 72), "V3": ("x", 1, z + 3, "px", 72), "V4": ("AV", 9, z, "mm", 300)}
+    else:
+        if "bad_font" in case:
+            inv, what = ("x", case["bad_font"], z, "in", 72), "unsupported-font"
+        else:
+            inv, what = ("x", case["font"], z, case["bad_unit"], 72), "unsupported-unit"
+        req = {"I": inv, "V1": ("x", case.get("font", 4), z, "in", 72), "V2": ("AV", 8 if case.get("font", 4) != 8 else 1, z + 3, "mm", 96)}
+    seen = {k: set() for k in req if k != "I"}
+    for n in (1, 2, 3):
+        for hist in itertools.product(sorted(req), repeat=n):
+            if "I" in req and "I" not in hist:
+                continue
+            cnt["histories"] += 1
+            for step, r in enumerate(hist):
+                out = _outcome(lambda: w(*req[r]))
+                cnt["calls"] += 1
+                if r == "I":
+                    cnt["history-invalid-calls"] += 1
+                    if out[0] != "ValueError":
+                        got = f"returned {out[1]!r}" if out[0] == "ok" else f"raised {out[0][6:]}: {out[1]}"
+                        viol.append({"klass": None, "sig": f"{what}-{'accepted' if out[0] == 'ok' else 'wrong-exception'}-after-history",
+                                     "detail": f"history {'.'.join(hist)} with I = get_string_width{inv!r}, V1 = {req.get('V1')!r}, V2 = {req.get('V2')!r}: "
+                                               f"call {step + 1} (I) {got} instead of raising ValueError"})
+                else:
+                    cnt["history-valid-calls"] += 1
+                    if out[0] != "ok":
+                        viol.append({"klass": None, "sig": "valid-call-fails-after-history",
+                                     "detail": f"history {'.'.join(hist)}: call {step + 1} get_string_width{req[r]!r} -> {out[0]} {out[1] or ''}"})
+                    else:
+                        seen[r].add(out[1])
+    for r, vals in seen.items():
+        if len(vals) > 1:
+            viol.append({"klass": None, "sig": "valid-call-depends-on-history",
+                         "detail": f"get_string_width{req[r]!r} returned {sorted(vals)!r} depending on the calls made before it"})
+    return {"viol": viol[:50], "nt": True, "cnt": cnt}
+
+
+def eval_threads(case: dict) -> dict:
+    """The same requests from the worker's main thread, from a freshly started thread and from a second fresh thread."""
+    import threading
+    w = gsw()
+    font = case["font"]
+    reqs = []
+    if font is not None:
+        for f in (font, FONT_NAMES[font]):
+            for z in case["sizes"]:
+                for u in UNITS:
+                    for t in ("", "x", "AV \u03b1"):
+                        reqs.append((t, f, z, u, 96))
+    else:
+        reqs = [("x", b, 9, "in", 72) for b in BAD_FONTS] + [("x", 1, 9, u, 72) for u in BAD_UNITS] + [("x", "Arial", 9, u, 72) for u in BAD_UNITS]
+
+    def run_all(out):
+        out.extend(_outcome(lambda r=r: w(*r)) for r in reqs)
+
+    results = {"main": []}
+    run_all(results["main"])
+    for name in ("thread-1", "thread-2"):
+        results[name] = []
+        t = threading.Thread(target=run_all, args=(results[name],), name="c20-" + name)
+        t.start()
+        t.join()
+    cnt = {"calls": 3 * len(reqs), "thread-requests": len(reqs), "thread-comparisons": 2 * len(reqs)}
+    viol = []
+    for name in ("thread-1", "thread-2"):
+        for r, a, b in zip(reqs, results["main"], results[name]):
+            if a != b:
+                viol.append({"klass": None, "sig": f"result-differs-on-other-thread-{b[0].split(':')[-1] if b[0] != 'ok' else 'value'}",
+                             "detail": f"get_string_width{r!r}: main thread -> {a}, freshly started {name} -> {b}"})
+        if len(results[name]) != len(reqs):
+            viol.append({"klass": None, "sig": "thread-did-not-finish", "detail": f"{name} produced {len(results[name])} of {len(reqs)} results"})
+    if font is None:
+        for r, a in zip(reqs, results["main"]):
+            if a[0] != "ValueError":
+                viol.append({"klass": None, "sig": "unsupported-accepted", "detail": f"get_string_width{r!r} -> {a}"})
+    return {"viol": viol[:50], "nt": True, "cnt": cnt}
+
+
 def eval_case(case: dict) -> dict:
     k = case.get("k", "metric")
+    if k == "history":
+        return eval_history(case)
+    if k == "threads":
+        return eval_threads(case)
     if k == "units":
         return eval_units(case)
     if k == "errors":
@@ -394,6 +502,9 @@ def plan(run):
         "the single-character advance of the monospaced font is taken from 'M'; every string, including every single character, must equal len x that advance",
         "'appending never decreases' is checked for every string of the set against its one-shorter prefix",
         "size scaling is checked for every pair of sizes of the size set (not only against a reference size)",
+        "the clauses hold for every call history and on every thread: an unsupported font / unit raises ValueError however often and after "
+        "whatever it is requested (all histories of length <= 3 over {invalid, valid same size, valid other size}), a valid request returns "
+        "the same value after every history, and a freshly started thread gets the results of the main thread",
         "get_string_width measures its argument as literal text: LaTeX-style commands, ^ _ >= <=, RTF control words and page-field keywords are "
         "characters like any others (the property states the clauses for strings, not for rendered markup)",
     ]
@@ -423,6 +534,14 @@ def plan(run):
     ecases = [{"k": "errors", "bad_font": b, "sizes": [4, 9.5, 48]} for b in BAD_FONTS]
     ecases += [{"k": "errors", "bad_unit": u, "sizes": [4, 9.5, 48]} for u in BAD_UNITS]
     run.layer("unsupported-font-or-unit", "mc.props.c20:eval_case", ecases, chunk=1, total=len(ecases))
+    # call histories: every invalid request repeated / interleaved with valid ones; valid requests in every order
+    hcases = [{"k": "history", "bad_font": b, "size": z} for b in BAD_FONTS for z in (9, 10.8)]
+    hcases += [{"k": "history", "bad_unit": u, "font": f, "size": 9} for u in BAD_UNITS for f in (4, "Cambria")]
+    hcases += [{"k": "history", "valid_only": True, "size": z} for z in (4, 9, 24)]
+    run.layer("call-histories", "mc.props.c20:eval_case", hcases, chunk=4, total=len(hcases))
+    # calling thread: the same slice from the main thread and from two freshly started threads
+    tcases = [{"k": "threads", "font": f, "sizes": [4, 9.5, 13.3]} for f in sorted(FONT_NAMES)] + [{"k": "threads", "font": None}]
+    run.layer("other-threads", "mc.props.c20:eval_case", tcases, chunk=2, total=len(tcases))
     # determinism (DESIGN section 3): re-measure in another worker process, compare digests
     fonts = sorted(FONT_NAMES) if thorough else [1 + run.seed % 10]
     rcases = list(reversed(metric_cases(QUICK_SIZES if thorough else sizes, a24, fonts=fonts, digest_only=True)))
@@ -453,7 +572,8 @@ def plan(run):
     run.extra["calls"] = run.cnt.get("calls", 0)
     run.extra["pair_alphabet"] = "".join(a24)
     need = ["markup-strings", "markup-chains", "calls", "strings", "name-vs-number", "monotone-steps", "scaling-pairs", "mono-checks", "kerned-or-ligated", "empty",
-            "unit-triples", "rejected-ValueError", "error-twin-ok", "determinism-batches-equal"]
+            "unit-triples", "rejected-ValueError", "error-twin-ok", "determinism-batches-equal", "histories", "history-invalid-calls",
+            "history-valid-calls", "thread-comparisons"]
     if run.workers > 1:
         need.append("determinism-batches-in-other-worker")
     for n in need:
